@@ -402,6 +402,13 @@ class NoCopy:
         return '@NOCOPY'
 
 
+class ExcValue(Exception):
+    """An exception object that is somebody's *result* (an error reported as a value, ``gather(return_exceptions=True)`` style)."""
+
+    def __repr__(self):
+        return '@EXCVAL'
+
+
 class _FutureMarker:
     def __repr__(self):
         return '@FUTURE'
@@ -447,6 +454,8 @@ def special(value):
             return _FutureMarker()  # (asked for outside any loop, for the expected trace only: it prints the same)
     if isinstance(value, str) and value == '@EXCOBJ':
         return ProgError('an exception object handed over as a value')
+    if isinstance(value, str) and value == '@EXCVAL':
+        return ExcValue('reported as a value, not raised')
     if isinstance(value, str) and value == '@T12':
         return (1, 2)  # a single value that happens to be a tuple
     if isinstance(value, str) and value == '@T0':
